@@ -151,7 +151,9 @@ def pair_part(ck):
     for sd in seeds:
         for kern in kernels:
             for cl in (False, True):
-                base = dict(sample=kern, clustering=cl, n_particles=8)
+                base = dict(sample=kern, clustering=cl, n_particles=8, target="edge" if cl else "gauss", support=0.5 if (cl and kern == "rwm") else None)
+                if base["support"]:
+                    base["n_particles"] = 16
                 variants = [dict(evaluation="scalar"), dict(evaluation="vector"), dict(evaluation="vector_reuse"), dict(evaluation="blobs"), dict(pool="perm", pool_seed=sd), dict(pool=1)]
                 if ck.tier == "thorough" or (sd == seeds[0] and not cl):
                     # a real multiprocess pool whose tasks take different times (completion order != submission order)
@@ -164,10 +166,14 @@ def pair_part(ck):
     R = pairs.run_many(jobs)
     P = []
     meta = []
+    discarded = 0
     for g in groups:
         for k in g[1:]:
+            if pairs.out_of_scope(R[g[0]]) and pairs.out_of_scope(R[k]):
+                discarded += 1   # both runs died of the same defect recorded under another property
+                continue
             for r in (R[g[0]], R[k]):
-                if r["raised"]:
+                if r["raised"] and not pairs.out_of_scope(r):
                     ck.violation("pair:raised", f"run raised {r['raised']} for {r['job']['conf']}", {"job": r["job"]})
             P.append(pairs.project_pair(R[g[0]], R[k], kind="same", exact=True))
             meta.append((R[g[0]]["job"], R[k]["job"]))
@@ -181,7 +187,7 @@ def pair_part(ck):
         ck.violation("pair:" + f["clauses"][0], f"runs differ at iteration {f['i']} ({f['clauses']}): {a['conf']} vs {b['conf']} seed {a['seed']}",
                      {"a": a, "b": b, "clauses": f["clauses"], "iteration": f["i"]})
     ck.sample({"pair": [meta[0][0]["conf"], meta[0][1]["conf"]], "iterations": len(P[0]["a"])})
-    return {"pairs_validated": len(P), "pair_states": st["states"], "pair_runs": len(jobs)}
+    return {"pairs_validated": len(P), "pair_states": st["states"], "pair_runs": len(jobs), "pairs_discarded_known_finding_elsewhere": discarded}
 
 
 def main():
@@ -196,7 +202,8 @@ def main():
     mc["states"] += cov["states"]
     mc["transitions"] += cov["transitions"]
     cov.update(mc)
-    factors = {"evaluation": ["scalar", "vector", "vector_reuse", "blobs", {"pool": "perm"}, {"pool": 1}], "sample": ["tpcn", "rwm"], "clustering": [True, False], "resample": ["mult", "syst"]}
+    factors = {"evaluation": ["scalar", "vector", "vector_reuse", "blobs", {"pool": "perm"}, {"pool": 1}], "sample": ["tpcn", "rwm"], "clustering": [True, False], "resample": ["mult", "syst"],
+               "target": ["gauss", "edge", "edge"]}   # "edge": posterior mass against a hard prior wall (proposals leave the cube)
     jobs = sysrun.product_jobs(factors, {"n_particles": 8}, ck.seed + 13, limit=24 if ck.tier == "quick" else None)
     for k, j in enumerate(jobs):
         if k % 3 == 0:
